@@ -115,7 +115,7 @@ pub fn gen_graph(rng: &mut Rng, o: &GraphOpts) -> Scenario {
         }
     }
     let named = rng.chance(40);
-    let mut proj = Project { dir: "p0".into(), name: if named { Some("root".into()) } else { None }, imports: vec![], targets: vec![], raw_yaml: None };
+    let mut proj = Project { dir: "p0".into(), name: if named { Some("root".into()) } else { None }, imports: vec![], targets: vec![], raw_yaml: None, import_paths: Default::default() };
     let mut files = vec![];
     for i in 0..n {
         let name = format!("t{}", i);
@@ -318,7 +318,7 @@ pub fn gen_io(rng: &mut Rng, o: &IoOpts) -> Scenario {
             (i, _) => format!("p{}", i),
         };
         let name = if pi == 0 { if rng.chance(50) { Some(pnames[0].to_string()) } else { None } } else { Some(pnames[pi].to_string()) };
-        projects.push(Project { dir, name, imports: vec![], targets: vec![], raw_yaml: None });
+        projects.push(Project { dir, name, imports: vec![], targets: vec![], raw_yaml: None, import_paths: Default::default() });
     }
     // imports: root imports everything it references directly; chain layout: p0 -> p1 -> p2
     if np >= 2 {
